@@ -8,8 +8,8 @@ use crate::gen::*;
 use crate::val::V;
 use serde_json::{json, Value as J};
 
-const DICT: [&str; 34] = [
-    "{", "}", "[", "]", "(", ")", "<<", ">>", "%", "|", " or ", " when ", "rule ", "let ", " some ", "not ", "!", "==", "!=", " in ", "r[", "/", "'", "\"", "*", ".", ",", ":", "#", "\n", " ", "\u{e9}", "\u{1F600}", "@@",
+const DICT: [&str; 38] = [
+    "{", "}", "[", "]", "(", ")", "<<", ">>", "%", "|", " or ", " when ", "rule ", "let ", " some ", "not ", "!", "==", "!=", " in ", "r[", "/", "'", "\"", "*", ".", ",", ":", "#", "\n", " ", "\u{e9}", "\u{1F600}", "@@", "1e+999", "-9223372036854775809", "99999999999999999999", "0.0e-999",
 ];
 
 /// token / byte level mutations (DESIGN 3.4)
@@ -136,7 +136,11 @@ fn exercise(inp: &Input, with_files: bool) -> Result<(u64, bool), (String, Strin
     // grammar: a rules file that does not conform is rejected as a whole, with line and column,
     // and none of its rules is evaluated (judged where the data is loadable: otherwise the data
     // error comes first)
-    if !accepted && !inp.rules.trim().is_empty() {
+    // (parse-tree can also fail after parsing: a float literal that overflows to infinity cannot be
+    // written as JSON / YAML - that is not a rejection by the grammar)
+    let pt_msg = format!("{} {}", pt.err, pt.code.as_ref().err().cloned().unwrap_or_default());
+    let rejected = !accepted && (pt_msg.contains("Parser Error") || pt_msg.contains("Parsing Error"));
+    if rejected && !inp.rules.trim().is_empty() {
         let data_ok = serde_yaml::from_str::<serde_yaml::Value>(&inp.data).is_ok() && !inp.data.trim().is_empty();
         if data_ok && plain.code.is_ok() {
             if plain.code != Ok(5) {
@@ -222,7 +226,7 @@ fn mutant_case(u: &mut Choices, sz: Size) -> CaseResult {
 // ------------------------------------------------------------------------------------------------
 // stage: parser-accepted but ill-typed programs x awkward documents
 
-const ILL_TYPED: [&str; 62] = [
+const ILL_TYPED: [&str; 65] = [
     "rule r { this[ a == 1 ] exists }",
     "rule r { a[0][ k == 1 ] exists }",
     "rule r { a.*[ k == 1 ][ k == 1 ] !empty }",
@@ -284,6 +288,9 @@ const ILL_TYPED: [&str; 62] = [
     "rule r { resource_changes[*].change.after.a == 12345\n resource_changes[*].change.after.a in [12345, 7]\n resource_changes[*].change.after.a !exists }",
     "rule r { resource_changes[*].change.before.a == 12345\n resource_changes[*].change.before.a in [1]\n resource_changes[*].change.before !exists\n resource_changes[*].address in ['x']\n resource_changes[*].type == a }",
     "rule r { some resource_changes[*].change.after.* in ['x']\n resource_changes[*].change.after.a in a\n resource_changes[*].change.after in [{a: 1}]\n resource_changes[*] { change.after.a not in [2]\n change.after.a in r(5, 9) } }",
+    "rule r { a == 1e+999\n a in [2.0e+400, 1]\n a < 1.0e+310\n a in r(0.5, 1e+999)\n a == {k: 1e+999} }",
+    "let big = 1e+999\nlet l = [1, 1e+999]\nrule r { a == %big\n a in %l\n a[ keys == 1e+999 ] exists }",
+    "rule r { let s = substring('abc', 1e+999, 2.0e+400)\n %s exists\n let p = parse_int(1e+999)\n %p exists\n let q = parse_string(1.0e+310)\n %q exists }",
     "rule r { Resources.*.Properties { a == 12345 <<\t>> } }\nAWS::S3::Bucket { Properties.a == 12345 << >> }",
 ];
 
